@@ -613,3 +613,82 @@ Proof.
   destruct o; cbn [step]; intros H; try contradiction;
     repeat match goal with |- context [match ?x with _ => _ end] => destruct x end; split; reflexivity.
 Qed.
+
+(* ------------------------------------------------------------------ the auto-config entry point *)
+
+(* What a certificate issued through AutoConfig.InitialConfiguration implies.  There is no ACL
+   question (the JWT authorized [node]) and - unlike [issue_sound] - NO datacenter clause and no
+   supported-scope test: the code has none on this path. *)
+Theorem autoconfig_sound e node c s crt s' :
+  autoconfig_sign e node c s = Ok (crt, s') ->
+  exists u host ap dc,
+    csr_uris c = [u] /\ csr_emails c = 0 /\ parse_cert_uri u = Ok (IdAgent host ap dc node) /\
+    c_uris crt = [agent_cert_uri e u (IdAgent host ap dc node)] /\
+    (exists u', c_uris crt = [u'] /\ lower (u_host u') = trust_domain e /\
+                (u' = u \/ u' = uri_of (IdAgent (trust_domain e) ap dc node))) /\
+    c_is_ca crt = false /\ c_serial crt = next_serial s /\ s' = incr_serial s.
+Proof.
+  unfold autoconfig_sign. destruct (csr_uris c) as [|u [|u2 t]] eqn:Hu; try discriminate.
+  destruct (csr_emails c =? 0) eqn:Em; cbn [negb]; try discriminate.
+  destruct (parse_cert_uri u) as [id|pe] eqn:Hp; try discriminate.
+  destruct id as [| host ap dc agent | | |]; try discriminate.
+  destruct (agent =? node)%string eqn:En; cbn [negb]; try discriminate.
+  apply streqb_eq in En. subst agent.
+  destruct (sign_uris e [u] (IdAgent host ap dc node)) as [uris|x] eqn:S; try discriminate.
+  unfold provider_sign. intros H; injection H as <- <-.
+  destruct (sign_uris_ok _ _ _ _ S Hp) as [_ Ha]. specialize (Ha eq_refl).
+  exists u, host, ap, dc. cbn [c_uris c_is_ca c_serial].
+  split; [reflexivity|]. split; [apply N.eqb_eq; exact Em|]. split; [exact Hp|]. split; [exact Ha|].
+  split; [|repeat split].
+  rewrite Ha. cbn [agent_cert_uri coerce].
+  pose proof (parse_agent_host _ _ _ _ _ Hp) as Hh.
+  destruct (host =? trust_domain e)%string eqn:Ht.
+  - exists u. split; [reflexivity|]. apply streqb_eq in Ht. split; [|left; reflexivity].
+    rewrite <- Hh, Ht. unfold trust_domain. apply lower_idem.
+  - exists (uri_of (IdAgent (trust_domain e) ap dc node)). split; [reflexivity|].
+    split; [cbn [uri_of fresh_url u_host]; unfold trust_domain; apply lower_idem | right; reflexivity].
+Qed.
+
+(* ------------------------------------------------------------------ the environment comes from the store *)
+
+(* SignCertificate derives the trust domain from the ClusterID of the stored configuration; a
+   signing request does not change it, and no command but the two configuration writes does. *)
+Theorem sign_keeps_env dc az c s crt s' e :
+  store_env dc s = Some e -> sign_request e az c s = Ok (crt, s') -> store_env dc s' = Some e.
+Proof.
+  intros He H. destruct (issue_sound _ _ _ _ _ _ H) as (u & id & _ & _ & _ & _ & _ & _ & _ & _ & _ & _ & _ & _ & ->).
+  exact He.
+Qed.
+
+Theorem step_keeps_env dc s idx o :
+  match o with OpSetConfig _ | OpSetRootsAndConfig _ _ _ | OpSnapshotRestore => False | _ => True end ->
+  store_env dc (fst (step s idx o)) = store_env dc s.
+Proof.
+  destruct o; cbn [step]; intros H; try contradiction;
+    repeat match goal with |- context [match ?x with _ => _ end] => destruct x end; reflexivity.
+Qed.
+
+(* the statement of [issue_sound] without the two conjuncts about DNS / IP SANs (those describe
+   the code, they are not a soundness clause: see [sans_copied]) *)
+Theorem issue_sound_detailed e az c s crt s' :
+  sign_request e az c s = Ok (crt, s') ->
+  exists u id,
+    csr_uris c = [u] /\ csr_emails c = 0 /\ parse_cert_uri u = Ok id /\
+    validate_supported id = true /\ granted az id /\ id_dc id = e_dc e /\
+    (is_agent id = false -> lower (id_host id) = trust_domain e /\ c_uris crt = [u]) /\
+    (is_agent id = true -> c_uris crt = [agent_cert_uri e u id]) /\
+    c_is_ca crt = false /\ c_serial crt = next_serial s /\ s' = incr_serial s.
+Proof.
+  intros H. destruct (issue_sound _ _ _ _ _ _ H) as (u & id & H1 & H2 & H3 & H4 & H5 & H6 & H7 & H8 & H9 & _ & _ & H10 & H11).
+  exists u, id. repeat (split; [assumption|]). assumption.
+Qed.
+
+(* The DNS names and IP addresses of the request are copied into the certificate whatever the
+   identity is - a fact about the code, and the reason the clause "the certificate carries
+   exactly that identity" fails for the extra names. *)
+Theorem sans_copied e az c s crt s' :
+  sign_request e az c s = Ok (crt, s') -> c_dns crt = csr_dns c /\ c_ips crt = csr_ips c.
+Proof.
+  intros H. destruct (issue_sound _ _ _ _ _ _ H) as (u & id & _ & _ & _ & _ & _ & _ & _ & _ & _ & Hd & Hi & _).
+  split; assumption.
+Qed.
